@@ -615,6 +615,47 @@ func guardsOf(fd *ast.FuncDecl) []string {
 			out = append(out, "for: "+c+post)
 			return true
 		}
+		// arms of a switch / type switch that leave early
+		var tagStr string
+		var clauses []ast.Stmt
+		switch sw := n.(type) {
+		case *ast.SwitchStmt:
+			if sw.Tag != nil {
+				tagStr = src(sw.Tag)
+			}
+			clauses = sw.Body.List
+		case *ast.TypeSwitchStmt:
+			tagStr = src(sw.Assign)
+			clauses = sw.Body.List
+		}
+		for _, c := range clauses {
+			cl, ok := c.(*ast.CaseClause)
+			if !ok || len(cl.Body) == 0 {
+				continue
+			}
+			var ks []string
+			for _, k := range cl.List {
+				ks = append(ks, src(k))
+			}
+			arm := "default"
+			if len(ks) > 0 {
+				arm = strings.Join(ks, ", ")
+			}
+			switch last := cl.Body[len(cl.Body)-1].(type) {
+			case *ast.ReturnStmt:
+				var rs []string
+				for _, r := range last.Results {
+					if ce, ok := r.(*ast.CallExpr); ok && strings.HasSuffix(src(ce.Fun), "Errorf") {
+						rs = append(rs, "error")
+					} else {
+						rs = append(rs, src(r))
+					}
+				}
+				out = append(out, "case-ret: "+tagStr+" :: "+arm+" => "+strings.Join(rs, ", "))
+			case *ast.BranchStmt:
+				out = append(out, "case-"+last.Tok.String()+": "+tagStr+" :: "+arm)
+			}
+		}
 		is, ok := n.(*ast.IfStmt)
 		if !ok || len(is.Body.List) == 0 {
 			return true
